@@ -1,0 +1,48 @@
+//go:build verif
+
+package container
+
+// Contracts for the deductive verifier under /verif (comment-only; build tag verif).
+
+//@ pred sortedStrict(s []int) = forall k in 0..len(s)-1 :: s[k] < s[k+1]
+//@ spec func mem(s []int, x int) bool = exists j in 0..len(s) :: s[j] == x
+//@ pred below(s []int, x int) = forall k in 0..len(s) :: s[k] < x
+//@ pred inplace(ret []int, reuse []int) = fresh(ret) || (samearray(ret, reuse) && cap(ret) == cap(reuse))
+//@ pred subsetOf2(r []int, a []int, b []int) = forall k in 0..len(r) :: mem(a, r[k]) || mem(b, r[k])
+//@ pred subsetOf(a []int, r []int) = forall k in 0..len(a) :: mem(r, a[k])
+
+//@ func combine
+//@   requires sortedStrict(a) && sortedStrict(b)
+//@   requires disjoint(reuse, a) && disjoint(reuse, b)
+//@   modifies reuse[0:cap(reuse)]
+//@   ensures sortedStrict(result)
+//@   ensures inplace(result, reuse)
+//@   ensures subsetOf2(result, a, b)
+//@   ensures subsetOf(a, result)
+//@   ensures subsetOf(b, result)
+//@   loop 1:
+//@     invariant 0 <= e && e <= bl && bl == len(b) && 0 <= @i && @i <= len(a)
+//@     invariant inplace(ret, reuse)
+//@     invariant sortedStrict(ret)
+//@     invariant @i < len(a) ==> below(ret, a[@i])
+//@     invariant e < bl ==> below(ret, b[e])
+//@     invariant subsetOf2(ret, a[:@i], b[:e])
+//@     invariant subsetOf(a[:@i], ret)
+//@     invariant subsetOf(b[:e], ret)
+//@   loop 2:
+//@     invariant 0 <= e && e <= bl && bl == len(b) && 0 <= @i1 && @i1 < len(a) && v == a[@i1]
+//@     invariant inplace(ret, reuse)
+//@     invariant sortedStrict(ret)
+//@     invariant below(ret, v)
+//@     invariant e < bl ==> below(ret, b[e])
+//@     invariant subsetOf2(ret, a[:@i1], b[:e])
+//@     invariant subsetOf(a[:@i1], ret)
+//@     invariant subsetOf(b[:e], ret)
+//@   loop 3:
+//@     invariant 0 <= e && e <= bl && bl == len(b) && 0 <= @i && @i <= bl - e
+//@     invariant inplace(ret, reuse)
+//@     invariant sortedStrict(ret)
+//@     invariant e + @i < bl ==> below(ret, b[e+@i])
+//@     invariant subsetOf2(ret, a, b[:e+@i])
+//@     invariant subsetOf(a, ret)
+//@     invariant subsetOf(b[:e+@i], ret)
